@@ -16,6 +16,14 @@ def main():
     sd = "/verif/seeded/" + mid
     meta = {"id": mid, "breaks": prop}
     patch = os.path.join(out, "patch.diff")
+    if not os.path.exists(patch) or not os.path.isdir(wt):
+        # re-create the scratch worktree from the kept patch
+        patch = os.path.join(sd, "patch.diff")
+        out = sd
+        sh(["git", "-C", "/repo", "worktree", "prune"])
+        if not os.path.isdir(wt):
+            sh(["git", "-C", "/repo", "worktree", "add", "--detach", wt, "HEAD"])
+            sh(["git", "-C", wt, "apply", patch])
     # 1. suite on the worktree with the change
     rc, o = sh("go build ./... && go test -count=1 ./... 2>&1 | tail -15", cwd=wt)
     fails = [l for l in o.splitlines() if l.startswith("--- FAIL") or l.startswith("FAIL")]
@@ -50,6 +58,10 @@ def main():
     rc, o = sh(["git", "-C", "/repo", "status", "--short"])
     meta["repo_clean_after"] = (o.strip() == "")
     os.makedirs(sd, exist_ok=True)
+    if out == sd:
+        json.dump(meta, open(os.path.join(sd, "meta.json"), "w"), indent=1)
+        print(json.dumps({k: meta[k] for k in ("suite_with_change", "repo_clean_after")}), "demo:", rc_m, rc_p)
+        return
     shutil.copy(patch, os.path.join(sd, "patch.diff"))
     for f in ("notes.md",):
         if os.path.exists(os.path.join(out, f)):
